@@ -5,6 +5,10 @@ VARIABLE l
 Init == l = 1
 StepCase(e)   == e.ev = "case"
 StepStyled(e) == e.ev = "styled" /\
+  (\A k \in 1..Len(e.wins) :
+     LET wf == WindowFails(e, e.wins[k]) IN
+     Report(e.case, wf, IF wf = {} THEN <<>> ELSE [kind |-> e.kind, stroke_box |-> e.stroke_box, window |-> e.wins[k].box,
+                                                   drawn_box |-> IF e.wins[k].map = <<>> THEN <<>> ELSE e.wins[k].map[1]])) /\
   LET f == StyledFails(e) IN
   Report(e.case, f, IF f = {} THEN <<>> ELSE [kind |-> e.kind, shape_box |-> e.shape_box, fill_box |-> e.fill_box,
                                               stroke_box |-> e.stroke_box, diff |-> Differences(e)])
